@@ -26,7 +26,7 @@ Ev == Traces[tid]
 Cur == Ev[li]
 AsSet(sq) == {sq[i] : i \in 1..Len(sq)}
 
-TInit == /\ TLCSet(1, {})
+TInit == /\ TLCSet(1, {}) /\ TLCSet(2, [i \in 1..Len(Traces) |-> 0])
          /\ tid \in 1..Len(Traces) /\ li = 1 /\ used = {}
          /\ cs = [oracle |-> <<>>] /\ pc = "idle"
          /\ K = <<>> /\ V = <<>> /\ T = <<>> /\ defs = <<>> /\ cands = <<>> /\ nonce = <<>>
@@ -67,6 +67,10 @@ RecoverEv == /\ pc = "idle" /\ li <= Len(Ev) /\ Cur.op = "recover" /\ Toy
 TNext == SignBegin \/ Drbg \/ SignEnd \/ VerifyEv \/ RecoverEv
 TSpec == TInit /\ [][TNext]_tvars
 
-Reached == IF li = Len(Ev) + 1 THEN TLCSet(1, TLCGet(1) \cup {tid}) ELSE TRUE
-Post == PrintT(ToJson([k |-> "rejected", n |-> Len(Traces), ids |-> (1..Len(Traces)) \ TLCGet(1)]))
+\* register 1: traces matched to their end; register 2: per trace, the number of events matched (reported for rejected traces)
+Reached == /\ TLCSet(2, [TLCGet(2) EXCEPT ![tid] = IF @ < li - 1 THEN li - 1 ELSE @])
+           /\ IF li = Len(Ev) + 1 THEN TLCSet(1, TLCGet(1) \cup {tid}) ELSE TRUE
+Post == LET rej == (1..Len(Traces)) \ TLCGet(1) IN
+        PrintT(ToJson([k |-> "rejected", n |-> Len(Traces), ids |-> rej,
+                       matched |-> [i \in 1..Len(Traces) |-> IF i \in rej THEN TLCGet(2)[i] ELSE 0 - 1]]))
 =============================================================================
